@@ -10,11 +10,17 @@ pub struct BeanFactory<'b>(DashMap<&'b str, usize>);
 impl BeanFactory<'_> {
     fn get_instance<'i>() -> &'i BeanFactory<'i> {
         static INSTANCE: AtomicUsize = AtomicUsize::new(0);
-        let mut ret = INSTANCE.load(Ordering::Relaxed);
+        let mut ret = INSTANCE.load(Ordering::Acquire);
         if ret == 0 {
-            let ptr: &'i mut BeanFactory = Box::leak(Box::default());
-            ret = std::ptr::from_mut(ptr) as usize;
-            INSTANCE.store(ret, Ordering::Relaxed);
+            let ptr = Box::into_raw(Box::<BeanFactory>::default());
+            // only one of the threads that race here installs its factory
+            match INSTANCE.compare_exchange(0, ptr as usize, Ordering::AcqRel, Ordering::Acquire) {
+                Ok(_) => ret = ptr as usize,
+                Err(current) => {
+                    drop(unsafe { Box::from_raw(ptr) });
+                    ret = current;
+                }
+            }
         }
         unsafe { &*(ret as *mut BeanFactory) }
     }
@@ -69,17 +75,15 @@ impl BeanFactory<'_> {
     #[must_use]
     pub fn get_or_default<B: Default>(bean_name: &str) -> &B {
         let factory = Self::get_instance();
-        factory.0.get(bean_name).map_or_else(
-            || {
-                let bean: &B = Box::leak(Box::default());
-                _ = factory.0.insert(
-                    Box::leak(Box::from(bean_name)),
-                    std::ptr::from_ref(bean) as usize,
-                );
-                bean
-            },
-            |ptr| unsafe { &*(*ptr as *mut c_void).cast::<B>() },
-        )
+        if let Some(ptr) = factory.0.get(bean_name) {
+            return unsafe { &*(*ptr as *mut c_void).cast::<B>() };
+        }
+        // the entry stays locked while the bean is created, so threads racing on the first lookup share one bean
+        let ptr = *factory
+            .0
+            .entry(Box::leak(Box::from(bean_name)))
+            .or_insert_with(|| std::ptr::from_ref::<B>(Box::leak(Box::default())) as usize);
+        unsafe { &*(ptr as *mut c_void).cast::<B>() }
     }
 
     /// Get the bean by name, create bean if not exists.
@@ -90,16 +94,13 @@ impl BeanFactory<'_> {
     #[allow(clippy::mut_from_ref)]
     pub unsafe fn get_mut_or_default<B: Default>(bean_name: &str) -> &mut B {
         let factory = Self::get_instance();
-        factory.0.get_mut(bean_name).map_or_else(
-            || {
-                let bean: &mut B = Box::leak(Box::default());
-                _ = factory.0.insert(
-                    Box::leak(Box::from(bean_name)),
-                    std::ptr::from_ref(bean) as usize,
-                );
-                bean
-            },
-            |ptr| &mut *(*ptr as *mut c_void).cast::<B>(),
-        )
+        if let Some(ptr) = factory.0.get(bean_name) {
+            return &mut *(*ptr as *mut c_void).cast::<B>();
+        }
+        let ptr = *factory
+            .0
+            .entry(Box::leak(Box::from(bean_name)))
+            .or_insert_with(|| std::ptr::from_ref::<B>(Box::leak(Box::default())) as usize);
+        &mut *(ptr as *mut c_void).cast::<B>()
     }
 }
